@@ -1,4 +1,4 @@
-/- `_tdma_sched_bucket_sort` (the exchange sort on `seq[]`) and the loop of `tdma_sched_execute`. -/
+/- `_tdma_sched_bucket_sort` (the exchange sort on `seq[]`); callbacks that report success. -/
 import OsmoVerif.Lemmas.TdmaSchedBasic
 
 set_option linter.unusedVariables false
